@@ -34,6 +34,8 @@ pub fn recover_after<T>(token: T) -> Recover<T>
 
     Rc::new(RwLock::new(move |next_token| {
         if found {
+            // Reset for the next recovery using this `Recover`.
+            found = false;
             Ok(true)
         } else {
             found = next_token == token;
@@ -61,6 +63,8 @@ pub fn recover_after_any<T, I>(tokens: I) -> Recover<T>
 
     Rc::new(RwLock::new(move |next_token| {
         if found {
+            // Reset for the next recovery using this `Recover`.
+            found = false;
             Ok(true)
         } else {
             found = tokens.contains(&next_token);
